@@ -9,6 +9,11 @@ CHECKS = {
         technique='SMT reachability query (z3) over MIR control-flow graph x guard-checked monitor, per function and guard; native replay with a foreign collector',
         text='For every guard-taking method discovered in the MIR of the current tree (HashMap, HashSet, both reference wrappers, closures capturing a guard) z3 decides whether any CFG path reaches a use of the guard or a shared write before check_guard; unsat is complete for the finite CFG (no path-length bound), callee summaries are a least fixed point over the crate call graph. A sat answer is replayed natively with a foreign collector before it is reported.',
         note='Trusts rustc\'s MIR dump, the effect classification of callees by name (reclaim::Atomic::*, Table::*, retire_shared), and check_guard\'s body (checked to contain the ptr_eq assertion). Replay templates exist for the current public methods; an unchecked path in a method without template is reported as inconclusive (exit 2).'),
+    'C14': dict(
+        level='model_checking', design='DESIGN.md §4 C14',
+        technique='bit-precise symbolic execution of the MIR of presize/with_capacity/try_presize/init_table/reserve/add_count/treeify_bin/transfer into z3 bit-vector queries (cvc5 cross-check); native replay through an injected inspector',
+        text='The operand passed to Table::new and every value stored to size_ctl/count are extracted as 64-bit bit-vector terms from the MIR of the current tree; z3 (cross-checked by cvc5) decides the capacity contract for ALL 2^64 requested capacities, all counts/thresholds and every power-of-two table length: bins = least power of two >= 1.5c+1 capped at 2^30, c <= 0.75*bins, with_capacity(0) allocates nothing, growth is exactly 2x and only when an insert brings count to the threshold, never on a removal, never beyond 2^30, overfull bins in tables < 64 only reserve 2x. Counterexamples are replayed natively before being reported.',
+        note='Sequential semantics per function (CAS succeeds iff expected value present); callees that are not inlined are havoc (may rewrite every cell of the map); entry-state invariants are stated in the evidence. Retry loops unrolled twice. "Well-distributed" = collision-free keys in the native replay.'),
 }
 
 NOT_APPLICABLE = {
